@@ -493,7 +493,7 @@ class Process:
             real = self._proc_basic_info()[proc_info_map['gid']]
             effective = self._proc_basic_info()[proc_info_map['egid']]
             saved = None
-        return _common.puids(real, effective, saved)
+        return _common.pgids(real, effective, saved)
 
     @wrap_exceptions
     def cpu_times(self):
@@ -521,7 +521,7 @@ class Process:
     def terminal(self):
         procfs_path = self._procfs_path
         hit_enoent = False
-        tty = wrap_exceptions(self._proc_basic_info()[proc_info_map['ttynr']])
+        tty = self._proc_basic_info()[proc_info_map['ttynr']]
         if tty != cext.PRNODEV:
             for x in (0, 1, 2, 255):
                 try:
